@@ -362,7 +362,7 @@ func c22Rt(sdk *miscSDK, idx int, tag, kind, extra string) (out string) {
 	for _, s := range sets {
 		s(m.Elem())
 	}
-	ctx, cancel := context.WithTimeout(context.Background(), 10*time.Second)
+	ctx, cancel := context.WithTimeout(context.Background(), HxScale(30*time.Second))
 	defer cancel()
 	swamp := sdkname.New().Sanctuary("c22").Realm("rt").Swamp("s" + strconv.Itoa(idx))
 	if _, err := sdk.H.CatalogSave(ctx, swamp, m.Interface()); err != nil {
@@ -370,12 +370,18 @@ func c22Rt(sdk *miscSDK, idx int, tag, kind, extra string) (out string) {
 			return "err-shape"
 		}
 		fmt.Fprintf(os.Stderr, "c22 rt %q: save: %v\n", tag, err)
+		if miscIsTimeout(err) {
+			return "timeout"
+		}
 		return "bad"
 	}
 	defer func() { _ = sdk.H.Destroy(context.Background(), swamp) }()
 	back := reflect.New(st)
 	if err := sdk.H.CatalogRead(ctx, swamp, key, back.Interface()); err != nil {
 		fmt.Fprintf(os.Stderr, "c22 rt %q: read: %v\n", tag, err)
+		if miscIsTimeout(err) {
+			return "timeout"
+		}
 		return "bad"
 	}
 	for i := range fields {
@@ -395,6 +401,9 @@ func c22Rt(sdk *miscSDK, idx int, tag, kind, extra string) (out string) {
 	var p c22Probe
 	if err := sdk.H.CatalogRead(ctx, swamp, key, &p); err != nil {
 		fmt.Fprintf(os.Stderr, "c22 rt %q: probe read: %v\n", tag, err)
+		if miscIsTimeout(err) {
+			return "timeout"
+		}
 		return "bad"
 	}
 	gotStr := map[string]string{"createdBy": p.CB, "updatedBy": p.UB}
@@ -474,10 +483,10 @@ func c22Run(in *bufio.Scanner, w *bufio.Writer) {
 				var err error
 				sdk, err = miscNewSDK(600, 0)
 				if err != nil {
-					fmt.Fprintln(w, "err rig")
+					fmt.Fprintln(w, "timeout rig")
 					continue
 				}
-				ctx, cancel := context.WithTimeout(context.Background(), 10*time.Second)
+				ctx, cancel := context.WithTimeout(context.Background(), HxScale(30*time.Second))
 				errs := sdk.H.RegisterSwamp(ctx, &hydraidego.RegisterSwampRequest{
 					SwampPattern:    sdkname.New().Sanctuary("c22").Realm("*").Swamp("*"),
 					CloseAfterIdle:  600 * time.Second,
